@@ -690,6 +690,8 @@ func init() {
 			sb := ex.strBytes(s)[:p.Len()]
 			return ex.strEq(ex.mkString(sb), p)
 		},
+		"internal/stringslite.Clone": func(ex *Exec, fn *ssa.Function, a []Value) Value { return a[0] },
+		"strings.Clone":              func(ex *Exec, fn *ssa.Function, a []Value) Value { return a[0] },
 		"strings.HasSuffix": func(ex *Exec, fn *ssa.Function, a []Value) Value {
 			s, p := a[0].(StringV), a[1].(StringV)
 			if s.Len() < p.Len() {
@@ -699,14 +701,26 @@ func init() {
 			return ex.strEq(ex.mkString(sb), p)
 		},
 		"strconv.ParseInt": func(ex *Exec, fn *ssa.Function, a []Value) Value {
+			if s, ok := a[0].(StringV); ok && !s.concrete() {
+				// symbolic text: interpret the library's own code
+				return ex.callBody(fn, a, nil)
+			}
 			v, err := strconv.ParseInt(ex.argStr(a[0]), int(ex.argInt(a[1])), int(ex.argInt(a[2])))
 			return TupleV{ex.st.BVs(64, v), ex.nativeErr(err)}
 		},
 		"strconv.ParseUint": func(ex *Exec, fn *ssa.Function, a []Value) Value {
+			if s, ok := a[0].(StringV); ok && !s.concrete() {
+				// symbolic text: interpret the library's own code
+				return ex.callBody(fn, a, nil)
+			}
 			v, err := strconv.ParseUint(ex.argStr(a[0]), int(ex.argInt(a[1])), int(ex.argInt(a[2])))
 			return TupleV{ex.st.BV(64, v), ex.nativeErr(err)}
 		},
 		"strconv.Atoi": func(ex *Exec, fn *ssa.Function, a []Value) Value {
+			if s, ok := a[0].(StringV); ok && !s.concrete() {
+				// symbolic text: interpret the library's own code
+				return ex.callBody(fn, a, nil)
+			}
 			v, err := strconv.Atoi(ex.argStr(a[0]))
 			return TupleV{ex.st.BVs(64, int64(v)), ex.nativeErr(err)}
 		},
@@ -887,7 +901,7 @@ func init() {
 			}
 			return StringV{s: s.lines[s.pos]}
 		},
-		"(*bufio.Scanner).Err": func(ex *Exec, fn *ssa.Function, a []Value) Value { return IfaceV{} },
+		"(*bufio.Scanner).Err":         func(ex *Exec, fn *ssa.Function, a []Value) Value { return IfaceV{} },
 		"(*strings.Builder).copyCheck": func(ex *Exec, fn *ssa.Function, a []Value) Value { return nil },
 		"(*strings.Builder).String": func(ex *Exec, fn *ssa.Function, a []Value) Value {
 			l := a[0].(*Loc)
